@@ -34,10 +34,10 @@ def rand_bytes(rng, n):
     return "".join(chr(rng.randrange(256)) for _ in range(n))
 
 
-def mutate(rng, s, extra=(), maxlen=256):
+def mutate(rng, s, extra=(), maxlen=256, n=None):
     """a few structural mutations"""
     d = DICT + list(extra)
-    for _ in range(rng.choice([1, 1, 2, 3, 5])):
+    for _ in range(n or rng.choice([1, 1, 2, 3, 5])):
         k = rng.randrange(9)
         pos = rng.randint(0, len(s))
         if k == 0:
@@ -97,8 +97,10 @@ def pick(rng, tier, seeds, extra=()):
     """one input string: seed, mutated seed, grown seed, or random bytes"""
     r = rng.random()
     s = rng.choice(seeds)
-    if r < 0.15:
+    if r < 0.30:
         pass
+    elif r < 0.55:
+        s = mutate(rng, s, extra, n=1)
     elif r < 0.85:
         s = mutate(rng, s, extra)
     elif r < 0.93:
@@ -173,7 +175,7 @@ def g_tt(rng, tier):
         return "tt.%s %s %d %s" % (f, hx(s), n, hx(rng.choice(" .0\x00")))
     if f == "split":
         s = pick(rng, tier, TEXT)
-        n = rng.choice([0, 1, 1, 2, 3, 4, 4, 7, len(s), len(s) + 1, max(1, len(s) - 1), max(1, len(s) // 2), 2 ** 64 - 1, 2 ** 63, 2 ** 64 - len(s), 2 ** 32])
+        n = rng.choice([0, 1, 1, 2, 3, 4, 4, 7, len(s), len(s) + 1, max(1, len(s) - 1), max(1, len(s) // 2), 2 ** 64 - 1, 2 ** 63, 2 ** 64 - max(1, len(s)), 2 ** 32])
         return "tt.split %s %d" % (hx(s), n)
     if f == "rmsub":
         b, e = rng.choice([("(", ")"), ("[", "]"), ("{", "}"), ("(", "("), ("a", "b"), ("\x00", "\xff")])
@@ -307,7 +309,12 @@ def g_unmodelled(rng, tier):
     if k == 1:
         return "dd.read %s %d" % (hx(small_numbers(pick(rng, tier, DISTS, ["(", ")", ",", "=", "n=2", "dist=", "probas=", "values="]))), rng.randint(0, 1))
     if k == 2:
-        return "nc.vec %s" % hx(small_numbers(pick(rng, tier, VECS, ["seq(", "from=", "to=", "step=", "size=", "scale=", ",", "="])))
+        import re
+        v = small_numbers(pick(rng, tier, VECS, ["seq(", "from=", "to=", "step=", "size=", "scale=", ",", "="]))
+        # no exponent / tiny step in a sequence: "step=1e-30" or "step=0.00001" describes an astronomically long vector, not a long input
+        v = re.sub(r"(?<=[0-9.])[eE](?=[-+0-9])", "", v)
+        v = re.sub(r"\.0+", ".", v)
+        return "nc.vec %s" % hx(v)
     if k == 3:
         return "nc.seq %s %s %s" % (hx(small_numbers(pick(rng, tier, SEQS, ["-", ","]))), hx(rng.choice([",", ",", ";", " ", "-"])), hx(rng.choice(["-", "-", ":", ",", ".."])))
     return "ct.parse %s" % hx(pick(rng, tier, FORMULAS, ["+", "-", "*", "/", "(", ")", "x", "1"]))
@@ -354,6 +361,9 @@ def exhaustive(tier):
     return ops
 
 
+TRUNCEXP = "TruncExponential".encode().hex()
+
+
 def generate(seed, tier):
     rng = random.Random(seed)
     n = 40000 if tier == "thorough" else 6000
@@ -364,10 +374,12 @@ def generate(seed, tier):
     for f, w in fams:
         ops = [f(rng, tier) for _ in range(n * w // tot)]
         # at.vars can hit the known non-termination finding: one op per case (a case is judged up to its first issue)
-        single = [o for o in ops if o.startswith("at.vars")]
-        ops = [o for o in ops if not o.startswith("at.vars")]
+        def alone(o):
+            return o.startswith("at.vars") or (o.startswith("dd.read") and TRUNCEXP in o)
+        single = [o for o in ops if alone(o)]
+        ops = [o for o in ops if not alone(o)]
         cases += chunk(f.__name__[2:], ops, 150)
-        cases += [["case vars%d" % i, o] for i, o in enumerate(single)]
+        cases += [["case %s-single%d" % (f.__name__[2:], i), o] for i, o in enumerate(single)]
     return cases
 
 
